@@ -1,21 +1,18 @@
----- MODULE DP ----
+-------------------------------- MODULE DP --------------------------------
+(* Maximum value of a gated one-to-one assignment with "own column = threshold" by *)
+(* dynamic programming over the sets of used columns: the optimum for matrices too *)
+(* large for Assignment!Best (8 x 8).  W : [1..n -> [Cols -> Nat]], 0 = no pair.    *)
+(* f[i][U] = best value of rows i+1..n when the columns U are taken; built bottom-up *)
+(* (row n first) so that every table is a fully evaluated function.                 *)
 EXTENDS Integers, Sequences, FiniteSets, TLC
-(* maximum value of a gated one-to-one assignment by DP over used-column sets *)
-Max(a, b) == IF a >= b THEN a ELSE b
-MaxOf(S) == CHOOSE x \in S : \A y \in S : y <= x
-BestValue(W, n, Cols, thr) ==
-  LET f[i \in 0..n, U \in SUBSET Cols] ==
-        IF i = n THEN 0
-        ELSE LET skip == thr + f[i + 1, U]
-                 opts == {W[i + 1][c] + f[i + 1, U \cup {c}] : c \in {x \in Cols \ U : W[i + 1][x] > 0}}
-             IN IF opts = {} THEN skip ELSE Max(skip, MaxOf(opts))
-  IN f[0, {}]
-ValueOf(W, n, a, thr) == LET g[i \in 0..n] == IF i = 0 THEN 0 ELSE g[i-1] + (IF a[i] = 0 THEN thr ELSE W[i][a[i]]) IN g[n]
-N == 8
-Cols == 1..8
-W0 == [i \in 1..N |-> [c \in Cols |-> IF (i * 7 + c * 13) % 5 = 0 THEN 0 ELSE 300000 + ((i * 31 + c * 17) % 23) * 30000]]
-ASSUME PrintT(<<"best", BestValue(W0, N, Cols, 300000)>>)
-VARIABLE x
-Init == x = 0
-Next == x' = x
-====
+DMax(a, b) == IF a >= b THEN a ELSE b
+DMaxOf(S) == CHOOSE x \in S : \A y \in S : y <= x
+RECURSIVE Table(_, _, _, _, _)
+Table(W, n, Cols, thr, i) ==        \* [SUBSET Cols -> value of rows i+1..n]
+  IF i = n THEN [U \in SUBSET Cols |-> 0]
+  ELSE LET nxt == Table(W, n, Cols, thr, i + 1) IN
+       TLCEval([U \in SUBSET Cols |->
+          LET opts == {W[i + 1][c] + nxt[U \cup {c}] : c \in {x \in Cols \ U : W[i + 1][x] > 0}} IN
+          DMax(thr + nxt[U], IF opts = {} THEN 0 ELSE DMaxOf(opts))])     \* TLCEval: tabulate, do not re-evaluate
+BestValue(W, n, Cols, thr) == Table(W, n, Cols, thr, 0)[{}]
+=============================================================================
